@@ -135,7 +135,7 @@ fn headers(cmf: u8, cx: &mut Ctx) -> Check {
         for bits in 0..=16u8 {
             let want = rules && (1u32 << (cinfo + 8)) <= (1u32 << bits);
             let mut d = DecompressorOxide::new();
-            let r = drive(&mut d, &s, &DriveOpts { flags: TINFL_FLAG_PARSE_ZLIB_HEADER, mode: BufMode::Ring { bits, start: 0, fill_seed: 3 }, sched: &empty, canary: false, max_calls: None, announce: true, flat_start: 0 }, plain_hook)?;
+            let r = drive(&mut d, &s, &DriveOpts { flags: TINFL_FLAG_PARSE_ZLIB_HEADER, mode: BufMode::Ring { bits, start: 0, fill_seed: 3 }, sched: &empty, canary: false, max_calls: None, announce: true, flat_start: 0, probe_full_ring: false }, plain_hook)?;
             let acc = r.status == TINFLStatus::Done;
             vensure!(acc == want, if want { "c09:valid-header-rejected" } else { "c09:invalid-header-accepted" }, "ring 2^{bits}: header {cmf:#04x} {flg:#04x} (window 2^{}): decoder says {}, expected {}", cinfo + 8, status_name(r.status), if want { "accept" } else { "reject" });
             if acc {
@@ -212,9 +212,13 @@ fn trailer(src: &Src, edit: &TrailerEdit, sched: &DecSched, ring: Option<(u8, u3
         Some((bits, start, fill)) => BufMode::Ring { bits, start, fill_seed: fill },
     };
     let mut d = DecompressorOxide::new();
-    let r = drive(&mut d, &s, &DriveOpts { flags: zf, mode, sched, canary: false, max_calls: None, announce: true, flat_start: 0 }, plain_hook)?;
+    let r = drive(&mut d, &s, &DriveOpts { flags: zf, mode, sched, canary: false, max_calls: None, announce: true, flat_start: 0, probe_full_ring: false }, plain_hook)?;
     if corrupted {
         vensure!(r.status == TINFLStatus::Adler32Mismatch, "c09:bad-trailer-not-reported", "corrupted trailer/body ({edit:?}): status {} ({:?})", status_name(r.status), mode);
+        // and completion must not be reported by a further call on the same decoder either
+        let mut b = [0u8; 16];
+        let (st2, _, w2) = guard(|| decompress(&mut d, &s[n..], &mut b, 0, zf | TINFL_FLAG_USING_NON_WRAPPING_OUTPUT_BUF)).map_err(|pm| Violation::new(panic_sig("decompress", &pm), format!("panic: {pm}")))?;
+        vensure!(st2 != TINFLStatus::Done && w2 == 0, "c09:completion-reported-after-mismatch", "a further call after Adler32Mismatch returned {} ({edit:?})", status_name(st2));
     } else {
         vensure!(r.status == TINFLStatus::Done, "c09:good-trailer-rejected", "status {}", status_name(r.status));
     }
@@ -222,7 +226,7 @@ fn trailer(src: &Src, edit: &TrailerEdit, sched: &DecSched, ring: Option<(u8, u3
     vensure!(d.adler32_header() == Some(u32::from_be_bytes(s[n - 4..].try_into().unwrap())), "c09:adler32_header", "adler32_header() = {:?}", d.adler32_header());
     // ignoring the checksum
     let mut d = DecompressorOxide::new();
-    let r2 = drive(&mut d, &s, &DriveOpts { flags: zf | TINFL_FLAG_IGNORE_ADLER32, mode, sched, canary: false, max_calls: None, announce: true, flat_start: 0 }, plain_hook)?;
+    let r2 = drive(&mut d, &s, &DriveOpts { flags: zf | TINFL_FLAG_IGNORE_ADLER32, mode, sched, canary: false, max_calls: None, announce: true, flat_start: 0, probe_full_ring: false }, plain_hook)?;
     vensure!(r2.status == TINFLStatus::Done && r2.out == expect_plain, "c09:ignore-flag-not-honoured", "with TINFL_FLAG_IGNORE_ADLER32: status {}", status_name(r2.status));
     // vector function and inflate()
     let v = guard(|| decompress_to_vec_zlib(&s)).map_err(|pm| Violation::new(panic_sig("to_vec_zlib", &pm), format!("panic: {pm}")))?;
